@@ -222,13 +222,13 @@ class SSHChannel(log.Logger):
             self.buf += data
             return
         top = len(data)
-        if top > self.remoteWindowLeft:
+        windowFull = top > self.remoteWindowLeft
+        if windowFull:
             data, self.buf = (
                 data[: self.remoteWindowLeft],
                 data[self.remoteWindowLeft :],
             )
             self.areWriting = 0
-            self.stopWriting()
             top = self.remoteWindowLeft
         rmp = self.remoteMaxPacket
         write = self.conn.sendData
@@ -236,6 +236,10 @@ class SSHChannel(log.Logger):
         for offset in r:
             write(self, data[offset : offset + rmp])
         self.remoteWindowLeft -= top
+        if windowFull:
+            # Only tell the application once the window has been accounted
+            # for, in case it writes again from inside stopWriting().
+            self.stopWriting()
         if self.closing and not self.buf:
             self.loseConnection()  # try again
 
@@ -254,13 +258,13 @@ class SSHChannel(log.Logger):
             else:
                 self.extBuf.append([dataType, data])
             return
-        if len(data) > self.remoteWindowLeft:
+        windowFull = len(data) > self.remoteWindowLeft
+        if windowFull:
             data, self.extBuf = (
                 data[: self.remoteWindowLeft],
                 [[dataType, data[self.remoteWindowLeft :]]],
             )
             self.areWriting = 0
-            self.stopWriting()
         while len(data) > self.remoteMaxPacket:
             self.conn.sendExtendedData(self, dataType, data[: self.remoteMaxPacket])
             data = data[self.remoteMaxPacket :]
@@ -268,6 +272,8 @@ class SSHChannel(log.Logger):
         if data:
             self.conn.sendExtendedData(self, dataType, data)
             self.remoteWindowLeft -= len(data)
+        if windowFull:
+            self.stopWriting()
         if self.closing:
             self.loseConnection()  # try again
 
